@@ -8,7 +8,7 @@ CONSTANTS
   WIds = {4}
   LMode = "ones"
   ECodes = {0, 100}
-  TCodes = {222, 132, 321}
+  TCodes = {222, 132}
   QuadIds = {4}
   KVariant = "code"
   ClampE = 15
